@@ -800,6 +800,50 @@ pub fn run(ctx: &Ctx) -> Report {
         st = st.merge(part);
     }
 
+    // ---- 1c. a long run of ever-new names on one fresh thread: 2^16 + 300 (thorough 2^17 + 300) requests, each carrying
+    //          an unsigned header whose name was never seen before, under a declared prefix that requires it signed --
+    //          each is refused exactly like the first (whatever is remembered per name, per thread, has no say)
+    {
+        let runs: u64 = if thorough { (1 << 17) + 300 } else { (1 << 16) + 300 };
+        let handle = std::thread::spawn(move || -> Option<(u64, String, Case)> {
+            crate::env::set_log_mode(crate::env::LOG_OFF);
+            let now = e2e::base_instant();
+            for n in 0..runs {
+                let mut plan = e2e::base_plan(if n % 2 == 0 { Carrier::Header } else { Carrier::Query });
+                plan.headers.push((format!("x-pre-{:06}", n), b"v".to_vec()));
+                let mut cfg = Cfg::basic(now);
+                cfg.reqs = sut::ReqSpec { always: vec![], if_in_request: vec![], prefixes: vec!["X-Pre-".into()], how: Some(sut::ReqBuild::Slice) };
+                let case = Case { wire: WireReq::from_wire(&build(&plan).wire), cfg, prov: ProvSpec::standard() };
+                let mut p = case.prov.to_provider();
+                let r = sut::validate(&case.wire, &case.cfg, &mut p);
+                let label = r.label();
+                if label != "Err(SignatureDoesNotMatch)" || p.touched() {
+                    return Some((n, format!("{} (provider consulted: {})", label, p.touched()), case));
+                }
+            }
+            None
+        });
+        let mut part = Stats::new();
+        part.evaluations += runs;
+        part.validated += runs;
+        part.transitions += runs;
+        part.nontrivial(&("new-names-run", runs));
+        part.outcome("new-names-run");
+        match handle.join() {
+            Ok(None) => {}
+            Ok(Some((n, observed, case))) => part.violation(Violation {
+                index: 950_000 + n,
+                what: format!("outcome-depends-on-how-many-distinct-header-names-this-thread-has-seen(request {})", n),
+                case: json!({"new_names_run_step": n, "e2e": case}),
+                expected: "Err(SignatureDoesNotMatch), provider not consulted (as for the first request of the run)".into(),
+                observed,
+                known: None,
+            }),
+            Err(_) => machinery_error("C18 (1c): the run's thread panicked"),
+        }
+        st = st.merge(part);
+    }
+
     // ---- 2. hash seeds: exhaust joint iteration orders of the query map and the header map
     {
         let mut orders_seen = 0usize;
@@ -1102,7 +1146,7 @@ pub fn run(ctx: &Ctx) -> Report {
     Report {
         stats: st,
         rule: format!(
-            "corpus of {} requests (one per stage of the documented order on each carrier, valid, wrong signature, with and without a session token; folded form, S3 + token, same credential under three tokens, five refusals that stop half-way through an element, six requests under server clocks 10 minutes apart incl. the edges of each window, two other server configurations, four other renderings of the timestamp on both carriers, pairs of equally long bodies of 1023 .. 200 000 bytes with different content and one body under the other's signature); outcome = Ok payload digest (returned parts, body, principal) or error kind; fresh-state outcome of each element = its outcome when validated first in a fresh process. (1) every sequence of 1..{} validations in one process: each step equals its fresh-state outcome; (2) joint iteration orders of the crate's query and header maps exhausted (projection on <= 4 keys each) with identical canonical bytes and outcome, incl. the prefix rule whose error is raised inside a map iteration; (3) one fresh process per corpus element validated first{}; (4a) real threads under a controlled scheduler whose scheduling points are the crate's own log records and every provider event: 6 two-thread pairs ({}), 3 threads at preemption bound {}{}; (4b) 2-3 validation futures multiplexed on one thread with every order of polls (pending body / readiness / key future); built-in canaries (shared scratch buffer) must be caught by 4a and 4b on every run; plus a free-running barrier pass (sampling, supplementary); (5) every sequence of 1..2 (thorough 3) operations {{prevalidate, validate_signature, validate_signature on a clone}} x 3 configurations x 5 server clocks on one authenticator object (unstable API), each operation judged alone; (6) every sequence of up to 4 (thorough 5) steps over 15 symbols — validate one of three requests (everything signed, the declared headers sent but unsigned, no such headers) or add_* / remove_* (always / conditional / prefix, each name in two spellings) — on ONE VecSignedHeaderRequirements object used and edited between validations, each validation judged by the reference verifier for what is declared at that moment; (1b) a history of 2^16 + 300 (thorough 2^18 + 300) validations cycling through the corpus, each outcome equal to the fresh-process outcome; (7) requests on and next to both edges of the freshness window (11 offsets) on both carriers against a key provider that takes 1.1 / 2.1 (thorough 3.1) seconds of wall-clock time: same outcome as with one that answers at once. states = distinct outcomes / outcome vectors",
+            "corpus of {} requests (one per stage of the documented order on each carrier, valid, wrong signature, with and without a session token; folded form, S3 + token, same credential under three tokens, five refusals that stop half-way through an element, six requests under server clocks 10 minutes apart incl. the edges of each window, two other server configurations, four other renderings of the timestamp on both carriers, pairs of equally long bodies of 1023 .. 200 000 bytes with different content and one body under the other's signature); outcome = Ok payload digest (returned parts, body, principal) or error kind; fresh-state outcome of each element = its outcome when validated first in a fresh process. (1) every sequence of 1..{} validations in one process: each step equals its fresh-state outcome; (2) joint iteration orders of the crate's query and header maps exhausted (projection on <= 4 keys each) with identical canonical bytes and outcome, incl. the prefix rule whose error is raised inside a map iteration; (3) one fresh process per corpus element validated first{}; (4a) real threads under a controlled scheduler whose scheduling points are the crate's own log records and every provider event: 6 two-thread pairs ({}), 3 threads at preemption bound {}{}; (4b) 2-3 validation futures multiplexed on one thread with every order of polls (pending body / readiness / key future); built-in canaries (shared scratch buffer) must be caught by 4a and 4b on every run; plus a free-running barrier pass (sampling, supplementary); (5) every sequence of 1..2 (thorough 3) operations {{prevalidate, validate_signature, validate_signature on a clone}} x 3 configurations x 5 server clocks on one authenticator object (unstable API), each operation judged alone; (6) every sequence of up to 4 (thorough 5) steps over 15 symbols — validate one of three requests (everything signed, the declared headers sent but unsigned, no such headers) or add_* / remove_* (always / conditional / prefix, each name in two spellings) — on ONE VecSignedHeaderRequirements object used and edited between validations, each validation judged by the reference verifier for what is declared at that moment; (1b) a history of 2^16 + 300 (thorough 2^18 + 300) validations cycling through the corpus, each outcome equal to the fresh-process outcome; (1c) 2^16 + 300 (thorough 2^17 + 300) requests on one fresh thread, each with an unsigned header of a never-seen name under a declared prefix, each refused like the first; (7) requests on and next to both edges of the freshness window (11 offsets) on both carriers against a key provider that takes 1.1 / 2.1 (thorough 3.1) seconds of wall-clock time: same outcome as with one that answers at once. states = distinct outcomes / outcome vectors",
             n, l, if thorough { " (4 rounds)" } else { "" }, if thorough { "all interleavings" } else { "all schedules with <= 3 preemptions" }, if thorough { 3 } else { 2 }, if thorough { ", 4 threads at bound 2" } else { "" }
         ),
         bounds: json!({"corpus": n, "history_length": l}),
